@@ -679,3 +679,148 @@ Lemma catchup_fixed_witness :
   (let '(_, gs, st) := session cf 11200 [] [EvTimer {| fi_clock := [14300; 16400; 18500; 18501]; fi_refuse := [] |}] in
    map (map (fun m => (mp_nr m, mp_last m))) gs = [[(5, false)]; [(6, true)]] /\ ph st = PStopped).
 Proof. vm_compute. repeat split; reflexivity. Qed.
+
+(** * Duration in both modes once the catch-up loop looks at lastSegNrToSend
+    (the proposed repair, [sc_catchup_checks = true]): for every clock. *)
+
+Lemma numbered_last_app cf last a : forall n b,
+  numbered_last cf last n (a ++ b) <-> numbered_last cf last n a /\ numbered_last cf last (n + lenZ a) b.
+Proof.
+  induction a as [|g a IH]; intros n b; cbn [app numbered_last].
+  - rewrite lenZ_nil, Z.add_0_r. tauto.
+  - rewrite lenZ_cons, IH. replace (n + 1 + lenZ a) with (n + (1 + lenZ a)) by lia. tauto.
+Qed.
+
+Lemma advance_running cf st : avail_total cf -> ph st = PRunning ->
+  exists a, advance cf st = {| ph := PRunning; nextNr := nextNr st + 1; lastToSend := lastToSend st; availT := a |}.
+Proof.
+  intros Hav Hr. unfold advance. destruct (Hav (u32 (nextNr st + 1))) as [a Ha]. rewrite Ha, Hr. eauto.
+Qed.
+
+Lemma catchup_dur cf :
+  sc_catchup_checks cf = true -> sc_chunked cf = false -> tabs_ok cf -> avail_total cf ->
+  forall clock st gs st',
+    ph st = PRunning -> 0 <= lastToSend st -> nextNr st <= lastToSend st + 1 ->
+    catchup cf clock st = (gs, st') ->
+    numbered_last cf (lastToSend st) (nextNr st) gs /\ lastToSend st' = lastToSend st /\
+    nextNr st' = nextNr st + lenZ gs /\
+    ((ph st' = PRunning /\ nextNr st' <= lastToSend st + 1) \/ (ph st' = PStopped /\ nextNr st' = lastToSend st + 1)).
+Proof.
+  intros Hcc Hc Htab Hav. induction clock as [|now clock IH]; intros st gs st' Hr Hl Hn H; cbn [catchup] in H.
+  - inversion H; subst. cbn [numbered_last]. rewrite lenZ_nil. intuition lia.
+  - rewrite Hr in H. destruct (availT st - now <=? 0).
+    + rewrite Hcc in H. cbn [andb] in H.
+      destruct ((0 <=? lastToSend st) && (lastToSend st <? nextNr st)) eqn:Eb.
+      * inversion H; subst. cbn [numbered_last ph stopped nextNr lastToSend]. rewrite lenZ_nil. intuition lia.
+      * destruct (sendMedia_ok cf (nextNr st) (availT st) (nextNr st =? lastToSend st) Htab) as [g Hg].
+        rewrite Hg in H. destruct (sendMedia_wf _ _ _ _ _ Hg) as [Hw Hlast].
+        destruct (advance_running cf st Hav Hr) as [a Ha].
+        assert (Hafter : afterSend cf [] g (advance cf st) = advance cf st).
+        { unfold afterSend. rewrite Hc. reflexivity. }
+        rewrite Hafter, Ha in H.
+        set (st1 := {| ph := PRunning; nextNr := nextNr st + 1; lastToSend := lastToSend st; availT := a |}) in *.
+        destruct (catchup cf clock st1) as [gs1 st2] eqn:Ec. inversion H; subst.
+        apply IH in Ec; [|reflexivity|cbn [st1 lastToSend]; lia|cbn [st1 nextNr lastToSend]; lia].
+        cbn [st1 nextNr lastToSend] in Ec. destruct Ec as (N1 & L1 & X1 & P1).
+        cbn [numbered_last]. rewrite lenZ_cons.
+        split; [split; [exact Hw|split; [|exact N1]]|].
+        -- eapply Forall_impl; [|exact Hlast]. cbn. tauto.
+        -- split; [exact L1|]. split; [lia|]. destruct P1 as [[P Q]|[P Q]]; [left|right]; split; try assumption; lia.
+    + inversion H; subst. cbn [numbered_last]. rewrite lenZ_nil. intuition lia.
+Qed.
+
+Lemma fire_dur cf fi st gs st' :
+  sc_catchup_checks cf = true -> sc_chunked cf = false -> tabs_ok cf -> avail_total cf ->
+  ph st = PRunning -> 0 <= nextNr st <= lastToSend st ->
+  fire cf fi st = (gs, st') ->
+  numbered_last cf (lastToSend st) (nextNr st) gs /\ 1 <= lenZ gs /\ lastToSend st' = lastToSend st /\
+  nextNr st' = nextNr st + lenZ gs /\
+  ((ph st' = PRunning /\ nextNr st' <= lastToSend st) \/ (ph st' = PStopped /\ nextNr st' = lastToSend st + 1)).
+Proof.
+  intros Hcc Hc Htab Hav Hr Hn H. unfold fire in H.
+  destruct (sendMedia_ok cf (nextNr st) (availT st) (nextNr st =? lastToSend st) Htab) as [g Hg].
+  rewrite Hg in H. destruct (sendMedia_wf _ _ _ _ _ Hg) as [Hw Hlast].
+  assert (Hafter : afterSend cf (fi_refuse fi) g st = st) by (unfold afterSend; rewrite Hc; reflexivity).
+  rewrite Hafter, Hr in H. destruct (advance_running cf st Hav Hr) as [a Ha]. rewrite Ha in H.
+  set (st1 := {| ph := PRunning; nextNr := nextNr st + 1; lastToSend := lastToSend st; availT := a |}) in *.
+  assert (Hg1 : group_wf cf (nextNr st) g /\ Forall (fun m => mp_last m = (nextNr st =? lastToSend st)) g).
+  { split; [exact Hw|]. eapply Forall_impl; [|exact Hlast]. cbn. tauto. }
+  assert (Htop : forall s2, lastToSend s2 = lastToSend st -> nextNr s2 <= lastToSend st + 1 ->
+            (ph s2 = PRunning \/ (ph s2 = PStopped /\ nextNr s2 = lastToSend st + 1)) ->
+            (ph (loopTop s2) = PRunning /\ nextNr (loopTop s2) <= lastToSend st) \/
+            (ph (loopTop s2) = PStopped /\ nextNr (loopTop s2) = lastToSend st + 1)).
+  { intros s2 L2 N2 [P|[P Q]].
+    - unfold loopTop. rewrite P, L2. destruct ((0 <=? lastToSend st) && (lastToSend st <? nextNr s2)) eqn:Eb.
+      + right. cbn [ph stopped nextNr]. split; [reflexivity|lia].
+      + left. split; [exact P|lia].
+    - right. unfold loopTop. rewrite P. split; assumption. }
+  destruct (sc_test cf).
+  - inversion H; subst.
+    pose proof (Htop st1 eq_refl ltac:(cbn [st1 nextNr]; lia) ltac:(left; reflexivity)) as Ht.
+    cbn [numbered_last]. rewrite lenZ_cons, lenZ_nil, loopTop_last. rewrite loopTop_next in *.
+    cbn [st1 nextNr lastToSend] in *. split; [tauto|]. split; [lia|]. split; [reflexivity|]. split; [lia|exact Ht].
+  - destruct (catchup cf (fi_clock fi) st1) as [gs1 st2] eqn:Ec. inversion H; subst.
+    apply (catchup_dur cf Hcc Hc Htab Hav) in Ec; [|reflexivity|cbn [st1 lastToSend]; lia|cbn [st1 nextNr lastToSend]; lia].
+    cbn [st1 nextNr lastToSend] in Ec. destruct Ec as (N1 & L1 & X1 & P1).
+    pose proof (lenZ_nonneg gs1).
+    assert (Ht : (ph (loopTop st2) = PRunning /\ nextNr (loopTop st2) <= lastToSend st) \/
+                 (ph (loopTop st2) = PStopped /\ nextNr (loopTop st2) = lastToSend st + 1)).
+    { apply Htop; [exact L1|destruct P1 as [[? ?]|[? ?]]; lia|destruct P1 as [[? ?]|[? ?]]; [left; assumption|right; split; assumption]]. }
+    cbn [numbered_last]. rewrite lenZ_cons, loopTop_last. rewrite loopTop_next in *.
+    split; [tauto|]. split; [lia|]. split; [exact L1|]. split; [lia|exact Ht].
+Qed.
+
+Lemma duration_run_any cf :
+  sc_catchup_checks cf = true -> sc_chunked cf = false -> tabs_ok cf -> avail_total cf ->
+  forall evs st gs st',
+    Forall is_fire evs -> ph st = PRunning -> 0 <= nextNr st <= lastToSend st ->
+    lastToSend st - nextNr st < lenZ evs ->
+    run cf st evs = (gs, st') ->
+    lenZ gs = lastToSend st - nextNr st + 1 /\ numbered_last cf (lastToSend st) (nextNr st) gs /\ ph st' = PStopped.
+Proof.
+  intros Hcc Hc Htab Hav. induction evs as [|ev evs IH]; intros st gs st' Hf Hr Hn Hl H.
+  - rewrite lenZ_nil in Hl. lia.
+  - inversion Hf as [|? ? Hev Hrest]; subst. cbn [run] in H. unfold step in H. rewrite Hr in H.
+    assert (Hfire : exists fi, (let '(g, st1) := fire cf fi st in let '(gs0, st2) := run cf st1 evs in (g ++ gs0, st2)) = (gs, st')).
+    { destruct ev as [fi|fi|]; [exists fi; exact H|exists fi; exact H|destruct Hev]. }
+    clear H. destruct Hfire as [fi H].
+    destruct (fire cf fi st) as [g0 st1] eqn:Ef.
+    destruct (fire_dur cf fi st g0 st1 Hcc Hc Htab Hav Hr Hn Ef) as (N0 & M0 & L0 & X0 & P0).
+    rewrite lenZ_cons in Hl. destruct (run cf st1 evs) as [gs1 st2] eqn:Er. inversion H; subst.
+    rewrite lenZ_app, numbered_last_app.
+    destruct P0 as [[P Q]|[P Q]].
+    + apply IH in Er; [|assumption|assumption|lia|lia].
+      rewrite L0, X0 in Er. destruct Er as (E1 & E2 & E3). split; [lia|]. split; [split; assumption|assumption].
+    + rewrite run_dead in Er by congruence. inversion Er; subst. rewrite lenZ_nil. cbn [numbered_last].
+      split; [lia|]. split; [tauto|assumption].
+Qed.
+
+(** The whole session with a duration, step mode or real time, any clock. *)
+Theorem duration_session_any cf now initres evs d inits gs st :
+  sc_catchup_checks cf = true ->
+  sc_dur cf = Some d -> 0 <= d -> 0 < sc_segDurMS cf ->
+  sc_chunked cf = false -> tabs_ok cf -> avail_total cf ->
+  forallb (fun i => nth i initres true) (seq 0 (length (sc_reps cf))) = true ->
+  let k := d * 1000 / sc_segDurMS cf in
+  let first := findLastSegNr cf now + 1 in
+  0 <= first ->
+  Forall is_fire evs -> k < lenZ evs ->
+  session cf now initres evs = (inits, gs, st) ->
+  inits = repIdxs cf /\ lenZ gs = k + 1 /\ numbered_last cf (first + k) first gs /\ ph st = PStopped.
+Proof.
+  intros Hcc Hd Hd0 Hseg Hc Htab Hav Hinit k first Hfirst Hf Hk H.
+  unfold session, start in H. rewrite Hinit in H. cbn [negb] in H.
+  unfold nrSegsToSend in H. rewrite Hd in H. unfold go_div in H.
+  destruct (sc_segDurMS cf =? 0) eqn:E0; [lia|]. cbn [bind] in H.
+  rewrite Z.quot_div_nonneg in H by lia. fold k in H. fold first in H.
+  destruct (Hav (u32 first)) as [a Ha]. rewrite Ha in H.
+  assert (Hk0 : 0 <= k) by (unfold k; apply Z.div_pos; lia).
+  set (st0 := {| ph := PRunning; nextNr := first; lastToSend := first + k; availT := a |}) in *.
+  assert (Hlt : loopTop st0 = st0).
+  { unfold loopTop. cbn [ph st0 lastToSend nextNr].
+    destruct ((0 <=? first + k) && (first + k <? first)) eqn:Eb; [lia|reflexivity]. }
+  rewrite Hlt in H. destruct (run cf st0 evs) as [gs0 st1] eqn:Er. inversion H; subst.
+  apply (duration_run_any cf Hcc Hc Htab Hav) in Er; [|assumption|reflexivity|cbn [st0 nextNr lastToSend]; lia|cbn [st0 nextNr lastToSend]; lia].
+  cbn [st0 nextNr lastToSend] in Er. destruct Er as (L1 & N1 & P1).
+  split; [reflexivity|]. split; [lia|]. split; assumption.
+Qed.
